@@ -20,6 +20,7 @@ from ..paths import enum_paths, canon_test
 from .. import tmpl
 from . import realign_common as rc
 from . import emit
+from ..core import same_func
 from .common import key_of, gaf_schema
 
 META = {
@@ -202,7 +203,7 @@ def r12_2(ctx, m):
     schema, extras, ems = emit.find_emitters(ctx, "R12.2")
     acc10 = acc11 = None
     for f, rec, n in ems:
-        if f is not wf:
+        if not same_func(f, wf):
             continue
         parts = tmpl.of_expr(n)
         cols = tmpl.columns(parts)
@@ -251,7 +252,7 @@ def r12_3(ctx, m, schema, extras):
         doc = None
     ctx.check(ok and (doc is None or doc == 60000), "R12.3", wf.where(guard), "records are passed through exactly when read end - read start > 60000 (the documented limit)", key_of(wf, f"length-guard:{norm(t)}"), guard=norm(t), documented=doc)
     _, _, ems = emit.find_emitters(ctx, "R12.3")
-    mine = [(f, r, n) for f, r, n in ems if f is wf]
+    mine = [(f, r, n) for f, r, n in ems if same_func(f, wf)]
     ctx.require_count("R12.3", len(mine), 2, wf.where(), "emitters of the worker (pass-through and realigned)")
     for f, r, n in mine:
         in_pass = any(x is n for b in guard.body for x in ast.walk(b))
